@@ -9,10 +9,13 @@ import (
 	"encoding/binary"
 	"encoding/hex"
 	"fmt"
+	"io/ioutil"
 	"math"
 	"math/big"
 	"math/rand"
 	"net"
+	"os"
+	"path/filepath"
 	"runtime"
 	"sort"
 	"strconv"
@@ -53,7 +56,7 @@ var natural = map[ipfix.FieldType]int{
 // ipfix.InfoModel for the run, as LoadExtElements would for an installed ipfix.elements file
 var extElems = []struct {
 	pen, id int
-	typ      ipfix.FieldType
+	typ     ipfix.FieldType
 }{
 	{9999, 1, ipfix.Uint32}, {9999, 2, ipfix.String}, {9999, 3, ipfix.Ipv6Address}, {9999, 4, ipfix.OctetArray},
 	{9999, 5, ipfix.Boolean}, {9999, 6, ipfix.Int64}, {9999, 7, ipfix.MacAddress}, {31337, 100, ipfix.Uint8},
@@ -62,7 +65,7 @@ var extElems = []struct {
 }
 
 var (
-	elemIDs   []int            // IANA element ids of the built-in model, sorted
+	elemIDs   []int // IANA element ids of the built-in model, sorted
 	elemByTyp = map[ipfix.FieldType][]int{}
 )
 
@@ -727,6 +730,27 @@ func (p *flowProto) genStream(cfg genCfg) func(r *rand.Rand, n int, w *bufio.Wri
 			g := &genSession{p: p, known: map[refKey]tpl{}, order: map[string][]int{}, tainted: map[string]bool{}}
 			nd := 1 + r.Intn(cfg.maxDgrams)
 			for d := 0; d < nd; d++ {
+				if d > 0 && r.Intn(8) == 0 {
+					// the collector is restarted between two datagrams: the cache is saved with Dump and loaded back
+					// with GetCache (C11 proves the loaded cache answers every lookup as the saved one: the model's
+					// cache is unchanged) — anything a template carries that the file does not shows from here on
+					fmt.Fprintf(w, "restart %s\t-\n", p.name)
+					emitted++
+				}
+				if !cfg.wfOnly && r.Intn(40) == 0 {
+					// one datagram with 65..300 data sets of distinct template ids this exporter never announced
+					// (every one is reported unknown and skipped; nothing may wait on anything)
+					hdr, _ := p.header(r, map[bool]int{true: 10, false: 9}[p.isIPFIX])
+					addr := exporterAddrs[r.Intn(len(exporterAddrs))]
+					m := append([]byte{}, hdr...)
+					for i, ns := 0, 65+r.Intn(236); i < ns; i++ {
+						body := rndBytes(r, 1+r.Intn(8))
+						m = append(m, cat(be16(20000+i), be16(4+len(body)), body)...)
+					}
+					fmt.Fprintf(w, "%s %s %s\t-\n", p.name, hx(addr), hx(m))
+					emitted++
+					continue
+				}
 				dg := g.genDatagram(r, cfg, d == 0)
 				exp := "-"
 				if dg.wf {
@@ -886,6 +910,19 @@ var (
 func (p *flowProto) runDecode(st *state, line, expect string) (string, string) {
 	initElems()
 	f := strings.Fields(line)
+	if f[0] == "restart" {
+		dir, err := ioutil.TempDir("", "verif-restart")
+		if err != nil {
+			return "ERR", "fail:restart " + err.Error()
+		}
+		defer os.RemoveAll(dir)
+		path := filepath.Join(dir, "cache.json")
+		if err := p.dumpReal(p.cache(st), path); err != nil {
+			return "ERR", "fail:restart Dump: " + err.Error()
+		}
+		st.v[p.name] = p.loadReal(path)
+		return "restarted", "ok"
+	}
 	addr, dg := unhx(f[1]), unhx(f[2])
 	maxPrev, _ := st.v["maxlen"].(int)
 	if len(dg) > maxPrev {
